@@ -161,11 +161,11 @@ def execute(ctx, case: dict) -> None:
     C03._drain(case, ctx)
 
 
-def gen_acl_case(rng, platform, n=None):
+def gen_acl_case(rng, platform, n=None, small_p=0.8, tail_pairs=0):
     n = n or rng.randint(2, 12)
     lines = []
     descs = []
-    small = sc.SMALL if rng.random() < 0.8 else None
+    small = sc.SMALL if rng.random() < small_p else None
     heading = rng.choice(["", "", "= "])
     while len(lines) < n:
         if rng.random() < 0.15:
@@ -181,7 +181,12 @@ def gen_acl_case(rng, platform, n=None):
             desc = dict(rng.choice(descs))
         descs.append(desc)
         lines.append(sc.compose(desc, platform))
-    if rng.random() < 0.25:
+    for _ in range(tail_pairs):
+        # covers that are private to one pair, at the far end of a long ACL
+        pair = sc.gen_related_pair(rng, platform, groups=False, small=None)
+        lines.append(sc.compose(pair["top"], platform))
+        lines.append(sc.compose(sc.derive_bottom(rng, pair["top"], platform, None), platform))
+    if rng.random() < 0.25 and len(lines) < 400:
         nums = rng.sample(range(1, 500), len(lines))  # fully numbered, numbers in no particular order
         lines = [f"{n} {ln}" for n, ln in zip(nums, lines)]
     text = grammar.acl_header(platform, "X1") + "\n" + "\n".join("  " + ln for ln in lines)
@@ -201,7 +206,7 @@ def run(ctx) -> None:
     done = 0
     if ctx.shard in (4, 11):
         # both sides wide: two non-contiguous wildcards of 9..10 bits (512 x 1024 network pairs), one inside the other
-        narrow, wide = ("10.0.0.0 0.255.2.127", "10.0.0.0 0.255.2.255") if ctx.shard == 4 else ("172.16.0.0 0.15.255.4", "172.16.0.0 0.31.255.6")
+        narrow, wide = ("10.0.0.0 0.255.2.127", "10.0.0.0 0.255.2.255") if ctx.shard == 4 else ("172.16.0.0 0.0.255.4", "172.16.0.0 0.1.255.4")
         for top_a, bot_a in ((narrow, wide), (wide, narrow), (narrow, narrow)):
             side = "src" if ctx.shard == 4 else "dst"
             top = {"action": "permit", "proto": 0, "src": "any", "dst": "any"}
@@ -213,9 +218,32 @@ def run(ctx) -> None:
             ctx.count("wide_wide_pairs")
             ctx.judged(sig=("wide-wide", top_a, bot_a), nontrivial=True, sample=case)
             done += 1
+    if ctx.shard in (6, 13):
+        # a long ACL made of many private (top, bottom) pairs: every cover is reported under its own top, whatever the position
+        platform = "ios" if ctx.shard == 6 else "nxos"
+        lines = []
+        for i in range(rng.randint(70, 90)):
+            act, proto = rng.choice(["permit", "deny"]), rng.choice(["tcp", "udp", "ip"])
+            port = f" eq {1000 + i}" if proto != "ip" else ""
+            net = f"10.{i}.0.0 0.0.255.255" if platform == "ios" else f"10.{i}.0.0/16"
+            host = f"host 10.{i}.{rng.randint(0, 255)}.{rng.randint(1, 254)}" if platform == "ios" else f"10.{i}.{rng.randint(0, 255)}.7/32"
+            if rng.random() < 0.5:
+                lines += [f"{act} {proto} {net} any{port}", f"{act} {proto} {host} any{port}"]
+            else:
+                lines += [f"{act} {proto} any {net}{port}", f"{act} {proto} any {host}{port}"]
+            if rng.random() < 0.15:
+                lines.append(f"remark after pair {i}")
+        case = {"k": "acl", "platform": platform, "text": grammar.acl_header(platform, "PAIRS") + "\n" + "\n".join("  " + ln for ln in lines),
+                "group_by": "", "skip": None, "more_skips": [], "handmade_groups": [], "kwargs": {}}
+        execute(ctx, case)
+        ctx.count("long_acls")
+        ctx.judged(sig=("long-acl-pairs", ctx.shard), nontrivial=True)
+        done += 1
     if ctx.shard in (5, 12):
         # a long ACL (well over 100 entries): the report clause does not depend on the length
-        case = gen_acl_case(rng, "ios" if ctx.shard == 5 else "nxos", n=rng.randint(120, 150))
+        # (shard 5: entries from the whole address space, so most covers are private to one pair; shard 12: small world)
+        case = gen_acl_case(rng, "ios" if ctx.shard == 5 else "nxos", n=rng.randint(130, 160), small_p=0.0 if ctx.shard == 5 else 1.0,
+                            tail_pairs=8)
         case["handmade_groups"] = []
         execute(ctx, case)
         ctx.count("long_acls")
